@@ -22,7 +22,7 @@ from vlib import *
 import vlib
 
 HOOK_DEP = '"minijinja-autoreload/verif_hooks"'
-POINTS = {11: "freshness-callback:return", 12: "on-should-reload-callback:return", 13: "BLOCKED on the notifier mutex before",
+POINTS = {11: "freshness-callback:return", 12: "on-should-reload-callback:return", 13: "BLOCKED on the notifier mutex before", 14: "creator:PANIC",
           1: "request:set-flag", 2: "request:notify", 3: "acquire:lock-cache", 4: "acquire:should_reload",
           5: "acquire:reset-flag", 6: "acquire:fast_reload?", 7: "creator:start", 8: "creator:end",
           9: "acquire:restore-flag", 10: "guard:drop"}
@@ -76,9 +76,10 @@ def cfg_ints(fast, fresh, oncb, creators, threads):
 
 def describe_cfg(fast, fresh, oncb, creators, threads):
     ops = {1: "request_reload", 2: "acquire_env+drop"}
-    cre = {0: "ok", 1: "fail", 2: "request_reload;ok", 3: "request_reload;fail"}
-    fr = {0: "none", 1: "always false", 2: "always true", 3: "true,false,...", 4: "false,true,..."}
-    return {"fast_reload": bool(fast), "freshness_callback": fr.get(fresh, fresh), "on_should_reload_callback": bool(oncb),
+    cre = {0: "ok", 1: "fail", 2: "request_reload;ok", 3: "request_reload;fail", 4: "PANIC", 5: "PANIC", 6: "request_reload;PANIC", 7: "request_reload;PANIC"}
+    fr = {0: "none", 1: "always false", 2: "always true", 3: "true,false,...", 4: "false,true,...", 5: "PANIC at first poll", 6: "true,PANIC"}
+    oc = {0: "none", 1: "installed", 2: "installed, PANICS at its first invocation", 3: "installed, PANICS at its second invocation"}
+    return {"fast_reload": bool(fast), "freshness_callback": fr.get(fresh, fresh), "on_should_reload_callback": oc.get(oncb, oncb),
             "creator_script": [cre.get(c, c) for c in creators] + ["ok..."],
             "threads": [[ops.get(o, o) for o in t] for t in threads]}
 
@@ -91,7 +92,8 @@ L33 = [[[1], [1], [1], [2], [2], [2]], [[1, 1, 1], [2, 2, 2]], [[1, 2], [1, 2], 
 L33_EXH = [[[1, 1, 1], [2, 2, 2]], [[1, 2], [1, 2], [1, 2]], [[2, 1], [2, 1], [2, 1]], [[1, 1, 1], [2], [2], [2]]]
 SMALL_SCRIPTS = [[], [1], [2], [0, 1], [0, 3], [1, 1], [0, 1, 1], [3, 0, 2]]
 SCRIPTS22 = [[], [0, 1], [2], [1], [0, 3, 1]]
-SCRIPTS33 = [[], [0, 1], [0, 3, 1], [1, 2, 0]]
+SCRIPTS33 = [[], [0, 1], [0, 3, 1], [1, 2, 0], [0, 4, 0], [0, 6]]
+PANIC_SCRIPTS = [[0, 4], [4], [0, 6], [0, 4, 0], [0, 1, 4], [6, 0]]
 
 
 def jobs_for(chk):
@@ -103,12 +105,21 @@ def jobs_for(chk):
                 for oncb in (0, 1):
                     for scr in (SMALL_SCRIPTS if (oncb == 0 or chk.thorough) else SMALL_SCRIPTS[:5]):
                         ex.append(("small", (fast, fresh, oncb, scr, lay), 1))
+        # panics: creator (during the first build, during a rebuild, after a request from inside), freshness callback,
+        # on-should-reload callback (in request_reload / in should_reload)
+        for fast in (0, 1):
+            for (fresh, oncb, scripts) in ((0, 0, PANIC_SCRIPTS), (3, 0, PANIC_SCRIPTS[:3]), (5, 0, [[], [0, 1]]), (6, 0, [[], [2]]), (6, 1, [[]]),
+                                           (0, 2, [[], [2]]), (0, 3, [[], [2]]), (2, 2, [[]]), (2, 3, [[], [0, 4]]), (5, 1, [[]])):
+                for scr in scripts:
+                    ex.append(("small", (fast, fresh, oncb, scr, lay), 1))
     for lay in L22:
         nth = len(lay)
         for fast in (0, 1):
             for fresh in ((0, 3) if nth >= 4 else (0, 2, 3) if (nth == 3 and not chk.thorough) else (0, 1, 2, 3)):
                 for scr in (SCRIPTS22 if (nth < 3 or chk.thorough) else SCRIPTS22[:3] if nth >= 4 else SCRIPTS22[:4]):
                     ex.append(("2+2", (fast, fresh, 1 if (fresh == 3 and scr == []) else 0, scr, lay), 4 if nth >= 4 else 1))
+        for (fast, fresh, oncb, scr) in ((0, 0, 0, [0, 4]), (1, 0, 0, [4, 0]), (0, 5, 0, []), (0, 0, 2, [])) + (((1, 3, 3, [0, 6]), (0, 6, 0, [2])) if nth < 4 else ()):
+            ex.append(("2+2", (fast, fresh, oncb, scr, lay), 4 if nth >= 4 else 1))
     if chk.thorough:
         for lay in L33_EXH:
             for fast in (0, 1):
@@ -182,7 +193,7 @@ def classify(events):
             last = p
             if g > 0:
                 last = 40  # guard out
-        if p == 10 or g == -1:
+        if p == 10 or g == -1 or (g == -3 and t == holder):
             holder = None
     return where
 
@@ -268,6 +279,7 @@ def work(job):
         H["creator calls/run: %d" % (m[1] if m[:1] == [0] else -1)] += 1
         nerr = sum(1 for e in events if e[3] == -1)
         H["acquire_env returned Err: %d" % nerr] += 1
+        H["operations ended in a panic (creator / callback / poisoned mutex): %d" % sum(1 for e in events if e[3] == -3)] += 1
         if i in (0, len(runs) // 2) and len(res["samples"]) < 2:
             res["samples"].append({"case": case, "events": events})
         if i % 997 == 0 and len(res["kernel"]) < 2:
@@ -303,7 +315,9 @@ def readable(sample, note=None):
         if p in (2, 11) and a >= 4:
             x += " (now inside the on-should-reload callback, notifier mutex held)"
         if p == 11:
-            x += " (answer: %s)" % ("stale" if a % 4 == 2 else "fresh")
+            x += " (answer: %s)" % ("stale" if a % 4 == 2 else "PANIC" if a % 4 == 3 else "fresh")
+        if p == 12 and a == 1:
+            x += " (PANIC)"
         if p == 7:
             x += " (generation %d)" % a
         if p == 8:
@@ -312,6 +326,8 @@ def readable(sample, note=None):
             x += " -> acquire_env returns Err"
         elif g == -2:
             x += " -> request_reload returns"
+        elif g == -3:
+            x += " -> the operation ends in a panic (caught by the caller)"
         elif g > 0:
             x += " -> %s env generation %d reflecting %d request(s), source version %d" % ("guard still on" if p == 10 else "acquire_env returns", g, v, w)
         evs.append(x)
@@ -336,6 +352,8 @@ def main():
         "the creator does not touch the reloader except through request_reload (a creator that calls acquire_env self-deadlocks on the cache mutex by construction); the freshness and on-should-reload "
         "callbacks do not call into the notifier (they run with its mutex held: re-entrant calls dead-lock by construction) but are preemptible: every other thread may run, or try to take the mutex, while one is inside",
         "an environment 'reflects a request' iff it was created (creator started) or its templates were cleared after the request's flag-set section completed",
+        "panics: the creator and both callbacks may panic (caught by the caller); std::sync::Mutex poisoning is modelled for both mutexes (lock().unwrap() on a poisoned mutex panics: "
+        "such an operation hands out nothing / does not return); a panic while a guard is held by the caller's own code is not exercised",
         "file-change notifications run the same two lock sections as request_reload (with_fs_watcher callback) and are represented by it"]
     ok_models, blog = build_models("C20")
     proofs_ok = chk.run_proofs()
